@@ -147,6 +147,14 @@ Theorem C12_noexec_no_command_stream : forall c e args k h n,
 Proof. exact noexec_no_command_stream. Qed.
 Print Assumptions C12_noexec_no_command_stream.
 
+(* all three flags set: a run that starts with empty stream tables touches nothing but
+   standard input, standard output and standard error *)
+Theorem C12_sandboxed_only_std : forall c e h s,
+  noExec c = true -> noFileWrites c = true -> noFileReads c = true -> tables_empty s ->
+  forallb is_std (run_effects c e s h) = true.
+Proof. exact sandboxed_only_std. Qed.
+Print Assumptions C12_sandboxed_only_std.
+
 (* a name that is open is reused: no flag test, no open, no start *)
 Theorem C12_open_name_reused_out : forall c e s n k r,
   lookup n (ins s) = None -> lookup n (outs s) = Some k ->
@@ -260,6 +268,9 @@ Example C12_ex_close_reopen :
   = [([CallOpenFile ex_out1 OTrunc], Continue RNone); ([Reuse ex_out1 KFile], Continue RNone);
      ([CloseStream ex_out1 KFile], Continue RNonNeg); ([CallOpenFile ex_out1 OAppend], Continue RNone)].
 Proof. vm_compute. reflexivity. Qed.
+
+Example C12_ex_tables_empty : tables_empty (init_state [wit_in1; dash] 2).
+Proof. split; reflexivity. Qed.
 
 (* the reuse theorems' hypotheses are met after an open *)
 Example C12_ex_reuse_hyp :
